@@ -649,6 +649,49 @@ fn one_case(ctx: &Ctx, case: u64, l: &mut Local) {
             j.reject("structural", &format!("signed by issuer B's key, header iss says B, payload iss says A ({} {})", alg.name(), fmt.name()), v, || json!({"header": hdr}));
         }
     }
+    // ---- ES256: a signature whose r or s starts with a zero octet, with that octet cut off (a
+    // "repair" of short big-integer signatures would accept it); such signatures are 1 in 128, so
+    // the payload is re-signed until one turns up
+    if alg == Alg::ES256 && case % 2 == 0 {
+        let payload: Value = t.parts.payload().unwrap_or(Value::Null);
+        for _ in 0..2000 {
+            let jwt = api::sign_payload(alg, 0, &payload, None);
+            let sg = tamper::segments(&jwt).unwrap();
+            let raw = crate::model::b64d(&sg[2]).unwrap_or_default();
+            if raw.len() == 64 && (raw[0] == 0 || raw[32] == 0) {
+                let mut cut: Vec<Vec<u8>> = vec![];
+                if raw[0] == 0 {
+                    cut.push(raw[1..].to_vec());
+                }
+                if raw[32] == 0 {
+                    cut.push([&raw[..32], &raw[33..]].concat());
+                }
+                for (k, c) in cut.iter().enumerate() {
+                    structural(&mut j, &format!("signature-leading-zero-octet-cut-{k}"), Some(format!("{}.{}.{}", sg[0], sg[1], crate::model::b64e(c))), &fixed);
+                }
+                break;
+            }
+        }
+    }
+    // ---- Compact only: the whole presentation folded like PEM / MIME text (a line break after every
+    // 64th or 76th character, LF or CRLF), and with a trailing line break
+    if fmt == Fmt::Compact {
+        let whole = t.parts.to_compact();
+        for width in [64usize, 76, 72, 80] {
+            for nl in ["\n", "\r\n"] {
+                let folded: String = whole.as_bytes().chunks(width).map(|c| String::from_utf8_lossy(c).to_string()).collect::<Vec<_>>().join(nl);
+                for text in [folded.clone(), format!("{folded}{nl}")] {
+                    if text == whole {
+                        continue;
+                    }
+                    let v = api::verify(&text, &fixed, t.kb.as_ref().map(|(a, n)| (a.as_str(), n.as_str())), fmt);
+                    j.l.count("fault.structural.kind.folded-presentation");
+                    j.l.distinct(crate::rng::mix(case ^ gen::hash_str("fold") ^ (width as u64) << 8 ^ nl.len() as u64));
+                    j.reject("structural", &format!("presentation folded at {width} characters ({} Compact)", alg.name()), Some(v), || json!({"width": width, "crlf": nl.len() == 2}));
+                }
+            }
+        }
+    }
     // ---- transfer encodings of single characters: a parser that "repairs" percent-escapes, the
     // standard base64 alphabet, HTML entities or '+' for blank would restore the signed text
     {
